@@ -1,5 +1,7 @@
 /- Driver/RsTask — C10 model driver: cfg / state / tick -/
 import SuplaVerif.Model.RsTask
+import SuplaVerif.Model.AutoCal
+import SuplaVerif.Gen.Consts
 import Driver.Common
 import Driver.FbTask
 namespace Driver.RsTaskDrv
@@ -36,9 +38,26 @@ def step (st : St) (toks : List String) : St × List String :=
     | none => (st, ["BADOP"])
   | _ => (st, [])
 
-/-- both models behind one driver: roller shutter ops and facade blind ops -/
+/-- acprobe step upT downT inMove closing: one call of supla_esp_gpio_rs_autocalibrate from position 50 -/
+def acProbe (toks : List String) : List String :=
+  match toks with
+  | [_, st, u, d, mv, cl] =>
+    match st.toNat?, u.toNat?, d.toNat?, cl.toNat? with
+    | some st, some u, some d, some cl =>
+      let r := acStep Gen.acParams { step := st, closing := cl, opening := 0 } u d (mv == "1")
+      let pos := if r.1.done then 100 else if r.1.fail then 0 else 50
+      let rel := match r.2.1 with
+        | .none => "-"
+        | .relay k => toString k
+        | .failed => "0"
+      [s!"AC {if r.2.2 then 1 else 0} {r.1.step} {r.1.closing} {r.1.opening} {pos} {if r.1.fail then 1 else 0} {rel}"]
+    | _, _, _, _ => ["BADOP"]
+  | _ => ["BADOP"]
+
+/-- the models behind one driver: roller shutter ops, facade blind ops, auto-calibration probe -/
 def step2 (st : St × FbTaskDrv.St) (toks : List String) : (St × FbTaskDrv.St) × List String :=
   match toks with
+  | "acprobe" :: _ => (st, acProbe toks)
   | t :: _ =>
     if t.startsWith "fb" then let r := FbTaskDrv.step st.2 toks; ((st.1, r.1), r.2)
     else let r := step st.1 toks; ((r.1, st.2), r.2)
